@@ -3,9 +3,11 @@ package props
 import (
 	"bytes"
 	"fmt"
+	"reflect"
 	"testing"
 
 	"github.com/insomniacslk/dhcp/dhcpv6"
+	"github.com/insomniacslk/dhcp/rfc1035label"
 
 	"verif/gen"
 	"verif/obs"
@@ -64,6 +66,20 @@ var c02 = newChk("C02", "roundtrip",
 		if enc2 := dec.ToBytes(); !bytes.Equal(enc2, enc) {
 			return obs.Failf("C02/reencode", "same bytes", "differs at byte %d", firstDiff(enc2, enc))
 		}
+		// (d) a decoded message whose domain names are edited in place (letter case only) encodes the edited names
+		if n := flipNames(dec); n > 0 {
+			enc3 := dec.ToBytes()
+			t3, v3 := refv6.DecodeMsg(enc3, cov.skip, nil)
+			if v3 == refv6.Reject {
+				return obs.Failf("C02/edited-names/unreadable", "independent decoder accepts", "rejected")
+			}
+			want3, _ := refv6.DecodeMsg(enc, cov.skip, nil)
+			flipTreeNames(want3)
+			if p, w := refv6.Diff(want3, t3, false); p != "" {
+				return obs.Failf("C02/edited-names/"+sigPath(p), "the edited names on the wire", "%s: %s", p, w)
+			}
+			rec.Class("names edited after decoding")
+		}
 		s := statsOf(t)
 		s.classify(rec, "")
 		if t.Relay {
@@ -113,4 +129,85 @@ func TestC02_Rapid(t *testing.T) {
 	// (counted through the class counters; checked by the driver via the evidence)
 	_ = cov
 	_ = missing
+}
+
+// flipNames toggles the letter case of every domain name held by label-bearing options of a library value
+// (search list, FQDN, NTP server FQDN), in place, recursively; it returns how many names changed.
+func flipNames(d dhcpv6.DHCPv6) int {
+	n := 0
+	var opts func(o dhcpv6.Options)
+	labels := func(l *rfc1035label.Labels) {
+		if l == nil {
+			return
+		}
+		for i, s := range l.Labels {
+			if f := flipCase(s); f != s {
+				l.Labels[i] = f
+				n++
+			}
+		}
+	}
+	opts = func(o dhcpv6.Options) {
+		for _, x := range o {
+			switch v := x.(type) {
+			case *dhcpv6.OptFQDN:
+				labels(v.DomainName)
+			case *dhcpv6.NTPSuboptionSrvFQDN:
+				labels(&v.Labels)
+			case *dhcpv6.OptNTPServer:
+				opts(v.Suboptions)
+			case *dhcpv6.OptIANA:
+				opts(v.Options.Options)
+			case *dhcpv6.OptIATA:
+				opts(v.Options.Options)
+			case *dhcpv6.OptIAPD:
+				opts(v.Options.Options)
+			case *dhcpv6.OptIAAddress:
+				opts(v.Options.Options)
+			case *dhcpv6.OptIAPrefix:
+				opts(v.Options.Options)
+			case *dhcpv6.Opt4RD:
+				opts(v.Options)
+			default:
+				switch x.Code() {
+				case dhcpv6.OptionDomainSearchList:
+					if f := reflect.ValueOf(x).Elem().FieldByName("DomainSearchList"); f.IsValid() {
+						if l, ok := f.Interface().(*rfc1035label.Labels); ok {
+							labels(l)
+						}
+					}
+				case dhcpv6.OptionRelayMsg:
+					if f := reflect.ValueOf(x).Elem().FieldByName("Msg"); f.IsValid() {
+						if inner, ok := f.Interface().(dhcpv6.DHCPv6); ok && inner != nil {
+							n += flipNames(inner)
+						}
+					}
+				}
+			}
+		}
+	}
+	switch m := d.(type) {
+	case *dhcpv6.Message:
+		opts(m.Options.Options)
+	case *dhcpv6.RelayMessage:
+		opts(m.Options.Options)
+	}
+	return n
+}
+
+// flipTreeNames applies the same edit to a reference tree.
+func flipTreeNames(m *refv6.Msg) {
+	var opts func(o []refv6.Opt)
+	opts = func(o []refv6.Opt) {
+		for i := range o {
+			for k, s := range o[i].Names {
+				o[i].Names[k] = flipCase(s)
+			}
+			opts(o[i].Sub)
+			if o[i].Msg != nil {
+				flipTreeNames(o[i].Msg)
+			}
+		}
+	}
+	opts(m.Opts)
 }
